@@ -21,7 +21,8 @@ def deep_stacks(r, thorough):
     out += ['affine/affine/affine/affine/affine/identity.2.f64']
     out += ['clamp/clamp/clamp/identity.3.i32', 'backup/backup/constant.2.u64.2.f64', 'clamp/clamp/clamp/clamp/clamp/clamp/clamp/clamp/clamp/identity.1.f64',
             'affine/affine/affine/identity.2.f64', 'clamp/strided.2.u64/array.1.f32', 'backup/clamp/strided.3.u64/array.2.f64',
-            'affine/linear.f32/clamp/backup/strided.2.u64/array.1.f32', 'clamp/nearest.f32/morton.2.u64.p/array.1.f32', 'backup/hilbert.u64/array.2.f64']
+            'affine/linear.f32/clamp/backup/strided.2.u64/array.1.f32', 'clamp/nearest.f32/morton.2.u64.p/array.1.f32', 'backup/hilbert.u64/array.2.f64',
+            'strided.1.u32/identity.1.u64', 'strided.2.u32/identity.1.u64', 'strided.2.i32/identity.1.u64', 'clamp/strided.2.u32/identity.1.u64']
     return [o for o in dict.fromkeys(out) if stacks.kind_of(o) is not None]
 
 
@@ -39,7 +40,7 @@ def run(replay=None):
     chk.cov['rule'] = (
         'stacks of depth 1..10 made of layers with same-typed, pairwise distinct configurations (so that any mis-ordering shows), plus the catalogue: (a) construct through '
         'make_parameter_pack_for from the positional configurations, read every layer\'s configuration back through get_configuration() and the get_backend() chain: must equal what was passed, in order '
-        '(independent oracle: the generated tokens themselves), storage zero-initialised, also with array storage configured longer than the extents above it need; (b) construct from configurations and storage, read both back, rebuild a second field from what was read: '
+        '(independent oracle: the generated tokens themselves), storage zero-initialised, also with array storage configured longer than the extents above it need, and with extents beyond the range of a narrow coordinate type; (b) construct from configurations and storage, read both back, rebuild a second field from what was read: '
         'configurations, storage, dump bytes and the value at sampled coordinates must be identical; compared with the model (parse_layers / fld_cfg_groups, theorems C17_*). '
         'A case = (stack, tokens); non-trivial = at least two configured layers; distinct by those.')
     with core.Lock('coq'):
@@ -68,6 +69,14 @@ def run(replay=None):
             # storage configured LONGER than the extents need: the array's own configuration is then not derivable from the layer above it
             toks = sc.rand_field(r, n, max_extent=3, data_mode='nice', cfg_mode='nice', ordered=True, slack=r.range(1, 9))
             cases.append((n, toks, [small_coords(r, k) for q in range(4)]))
+    # extents that do not fit the index scalar of the layer's coordinate vector (legal: extents are size_t whatever the coordinate
+    # type; the identity primitive beneath makes huge extents cost nothing): they must be reported as configured
+    for n, toks, coords in [('strided.1.u32/identity.1.u64', [2 ** 32 + 7], [[0], [5], [4000000000]]),
+                            ('strided.2.u32/identity.1.u64', [2 ** 32 + 1, 3], [[0, 0], [7, 2]]),
+                            ('strided.2.i32/identity.1.u64', [2 ** 31 + 5, 2], [[0, 1], [3, 0]]),
+                            ('clamp/strided.2.u32/identity.1.u64', [0, 0, 9, 2, 2 ** 40, 3], [[1, 1], [100, 100]])]:
+        if n in names and n not in runner.failed:
+            cases.append((n, toks, coords))
     if replay:
         rp = json.load(open(replay)).get('replay', {})
         if rp.get('cases'):
